@@ -622,6 +622,9 @@ class Gen:
             ev = self.cname()
             self.events.append(ev)
             decls.append(["event %s(uint256 %s);" % (ev, self.pick(["indexed v", "v", ""]))])
+        if self.chance(0.12):
+            # text that looks like a version elsewhere in the file
+            decls.append([self.pick(['string public constant VERSION = "0.1.0";', 'string constant SEMVER = "1.2.3";', '// migrated from 0.4.26, audited at v0.7.6'])])
         if self.ver_ge_084 and self.chance(0.4):
             er = self.cname()
             self.errors.append(er)
@@ -705,7 +708,8 @@ class Gen:
         if self.chance(0.15):
             out.append(self.pick(["pragma abicoder v2;", "pragma experimental ABIEncoderV2;"]))
         if self.chance(0.3):
-            out.append(self.pick(['import "./IERC20.sol";', 'import {SafeMath} from "./SafeMath.sol";', 'import * as L from "./lib.sol";', 'import "hardhat/console.sol";']))
+            out.append(self.pick(['import "./IERC20.sol";', 'import {SafeMath} from "./SafeMath.sol";', 'import * as L from "./lib.sol";', 'import "hardhat/console.sol";',
+                                    'import "@openzeppelin/contracts@3.4.2/math/SafeMath.sol";', 'import "lib/v0.8.19/Base.sol";']))
         out.append("")
         self.structs, self.events, self.errors, self.tokens, self.bases = [], [], [], [], []
         self.struct_fields, self.named_errors, self.external_fns = {}, [], []
@@ -828,6 +832,26 @@ def string_matrix(version):
             "contract StringMatrix {", "    using SafeMath for uint256;", "    bytes32 h;", "    event Said(string what);",
             "    function f(uint256 a) public {"]
     return "\n".join(head + body + ["        a.add(1);", "    }", "}"]) + "\n"
+
+
+LVALUE_BASES = ["arr", "s.arr", "s.t.arr", "pools[id].reserves", "pools[id][k].reserves", "getPool().reserves", "this.arr", "(arr)", "(s).arr",
+                "lib.Store(slot).arr", "users[msg.sender].balances", "grid[1]", "abi.decode(data, (uint256[]))", "new uint256[](3)", "f(x)[0].arr",
+                "super.arr", "type(C).name", "msg.data"]
+LVALUE_INDEXES = ["0", "1", "i", "i + 1", "id", "arr.length - 1", "0x0", "1e0", "uint8(0)", "k++"]
+
+
+def lvalue_matrix(version):
+    """Every shape of assignment target and of updated element (identifier, member chains, calls, casts, `this`,
+    parentheses, nested indexes) under every form of update: analysis must not abort on any of them (C04)."""
+    body = []
+    for b in LVALUE_BASES:
+        for ix in LVALUE_INDEXES:
+            e = "%s[%s]" % (b, ix)
+            body += ["        %s = %s + 1;" % (e, e), "        %s = 1 + %s;" % (e, e), "        %s = %s - x;" % (e, e), "        %s += 1;" % e, "        %s++;" % e,
+                     "        delete %s;" % e, "        (%s, x) = (1, 2);" % e, "        x = %s / 2 * 2;" % e, "        require(%s >= x, \"\");" % e]
+        body += ["        %s = %s;" % (b, b), "        %s.push(1);" % b, "        for (uint256 i = 0; i < %s.length; i++) {}" % b]
+    head = ["pragma solidity %s;" % version, "contract LvalueMatrix {", "    uint256[] arr;", "    uint256 x;", "    function f(uint256 id, uint256 k, bytes memory data) public {"]
+    return "\n".join(head + body + ["    }", "}"]) + "\n"
 
 
 def write_many(outdir, seed, count, prefix="g"):
